@@ -145,12 +145,31 @@ def c06_program(spec, cfgs, report):
     if v is not None and spec["kind"] != "kwinit":
         prog = Program(spec, cfgs)
         if prog.dump_creation_error is None:
-            for vname, obj in c03._dump_objects(prog, spec) + [("illtyped", None), ("illtyped2", 5)]:
+            for vname, obj in c03._dump_objects(prog, spec) + [("illtyped", None), ("illtyped2", 5)] + _bad_field_objects(prog, spec):
                 outs = {d: prog.dump(d, obj) for d in DEBUGS}
                 report.case(("c06md", spec["kind"], str(spec["fields"]), str(cfgs), vname), nontrivial=True)
                 report.outcome("mdump:" + "".join("A" if outs[d].ok else "R" for d in DEBUGS))
                 case = {"kind": "mdump", "spec": spec, "configs": cfgs, "object": vname, "node": "model"}
                 compare_modes(outs, lambda: f"dump {spec['kind']} {spec['fields']} {cfgs} of {vname}", case, report, "C06.dump")
+
+
+def _bad_field_objects(prog, spec):
+    """objects whose field i holds a value of the wrong runtime type (the field dumper raises KeyError / AttributeError /
+    TypeError — among them exactly the access-error classes of optional accessors)"""
+    from mc.models import BAD_VALUES
+    out = []
+    if spec["kind"] in ("pydantic", "sqlalchemy", "kwinit"):
+        return out
+    for i, (fname, tkey, req) in enumerate(spec["fields"]):
+        if tkey not in BAD_VALUES:
+            continue
+        values = {f: copy.deepcopy(TYPES[t]["good"][0][1]) for f, t, _ in spec["fields"]}
+        values[fname] = BAD_VALUES[tkey]
+        try:
+            out.append((f"badfield:{fname}", construct(prog.cls, spec["kind"], values)))
+        except Exception:  # noqa: BLE001, S112
+            continue
+    return out
 
 
 def _freeze(obj, spec):
